@@ -39,14 +39,26 @@ What(ti, out, e) ==
   ELSE IF \E j \in 1..Len(e.items) : e.items[j].t # "el" THEN "wrong-value"
   ELSE "wrong-node"
 
+(* The last element name written in another letter case (observed by the harness for path cases): unless that spelling is *)
+(* itself an element of the type of some focus item, it is not an element of the type and must fail with ErrInvalidField.  *)
+VariantOk(o, v) ==
+  LET pf == Nav(ForestOf(o.ti), SchOf(o.ti), SubSeq(o.steps, 1, Len(o.steps) - 1)) IN
+  IF pf.k # "ok" \/ Len(pf.items) = 0 THEN TRUE
+  ELSE IF \E j \in 1..Len(pf.items) : v.name \in ValidNames(SchOf(o.ti), NodeAt(TreeOf(o.ti), pf.items[j].addr)) THEN TRUE
+  ELSE IsInvalidField(v.out)
+VariantsOk(o) == Has(o, "variants") => \A q \in 1..Len(o.variants) : VariantOk(o, o.variants[q])
+BadVariant(o) == LET q == CHOOSE q \in 1..Len(o.variants) : ~VariantOk(o, o.variants[q]) IN o.variants[q]
+
 Verdict(o) ==
   LET e == Expected(o)
-      good == /\ ~IsFailure(o.out)
-              /\ CASE e.k = "any" -> TRUE
-                   [] e.k = "err" -> IsInvalidField(o.out)
-                   [] e.k = "ok"  -> o.out.k = "ok" /\ SeqMatches(o.ti, o.out.items, e.items)
+      good0 == /\ ~IsFailure(o.out)
+               /\ CASE e.k = "any" -> TRUE
+                    [] e.k = "err" -> IsInvalidField(o.out)
+                    [] e.k = "ok"  -> o.out.k = "ok" /\ SeqMatches(o.ti, o.out.items, e.items)
+      good == good0 /\ VariantsOk(o)
   IN [id |-> o.id, ok |-> good,
-      sig |-> IF good THEN "" ELSE "nav|" \o o.kind \o "|" \o PathName(o) \o "|" \o What(o.ti, o.out, e),
+      sig |-> IF good THEN "" ELSE IF good0 THEN "nav|name-in-other-letter-case-accepted|" \o PathName(o) \o "|" \o BadVariant(o).name \o "|got-" \o BadVariant(o).out.k
+              ELSE "nav|" \o o.kind \o "|" \o PathName(o) \o "|" \o What(o.ti, o.out, e),
       want |-> IF e.k = "ok" THEN [k |-> "ok", n |-> Len(e.items)] ELSE [k |-> e.k, n |-> 0]]
 
 VARIABLE i
